@@ -158,7 +158,7 @@ def register(pid):
 
 
 import props_pipeline  # noqa: E402,F401  (registers C02..C07, C09, C16, C17)
-for _m in ("props_select", "props_regex", "props_cf", "props_misc", "props_dlint"):
+for _m in ("props_select", "props_regex", "props_cf", "props_misc", "props_dlint", "props_c08", "props_c13", "props_c14", "props_c18", "props_c20"):
     try:
         __import__(_m)
     except ImportError as e:
